@@ -18,7 +18,12 @@ from .. import common
 from ..common import Check, mk_case, snip
 from . import modelcheck
 
-TARGETS = ["abc", "hello world", "a", "", "héllo", "€uro", "😀", "x1y2", "12", "3.5", "tab\there", "q\"q", "line\nbreak", "$dollar"]
+TARGETS = ["abc", "hello world", "a", "", "héllo", "€uro", "😀", "x1y2", "12", "3.5", "tab\there", "q\"q", "line\nbreak", "$dollar",
+           # every length class a hash function might treat differently (word-at-a-time paths start at 8 / 16 / 32 / 64 bytes)
+           "1234567", "12345678", "123456789", "exactly sixteen!", "seventeen bytes!!", "thirty-one bytes of plain text!",
+           "thirty-two bytes of plain text!!", "quick brown fox jumps over the lazy dog and keeps on running",
+           "sixty-four bytes: 0123456789abcdef0123456789abcdef0123456789abcd", "é€😀 mixed widths repeated é€😀 mixed widths repeated é€😀 end",
+           "name=Bartholomew Fitzgerald Montgomery-Smythe", "x" * 100, "ab" * 130]
 
 
 def lit(s):
@@ -52,13 +57,16 @@ def routes_program(rng, target, njunk):
     L.append("routes.push(part_a + part_b);")
     L.append("routes.push(\"${part_a}${part_b}\");")
     L.append("routes.push(\"${part_a}\" + %s);" % lit(b))
-    pad1, pad2 = "<<é", "€>>"
-    big = pad1 + s + pad2
-    i, j = len(pad1.encode()), len(pad1.encode()) + len(s.encode())
-    if s:
-        L.append("routes.push(%s[%d..%d]);" % (lit(big), i, j))
+    # cut out of larger strings at every byte offset modulo 8 (the cut shares no allocation with an equal literal)
+    for padlen in r.sample(list(range(0, 12)), 4):
+        pad1, pad2 = ("<<é" + "p" * 12)[:padlen] if padlen != 3 else "<<p", "€>>"
+        big = pad1 + s + pad2
+        i, j = len(pad1.encode()), len(pad1.encode()) + len(s.encode())
+        if s:
+            L.append("routes.push(%s[%d..%d]);" % (lit(big), i, j))
     if "," not in s and s:
         L.append("routes.push(%s.split(\",\")[1]);" % lit("zz," + s + ",yy"))
+        L.append("routes.push(%s.split(\",\")[%d]);" % (lit("a,bc,def," + s), 3))
     if "#" not in s and s:
         L.append("routes.push(%s.replace(\"#\", %s));" % (lit("#"), lit(s)))
         L.append("routes.push(%s.replace(\"#\", \"\"));" % lit(s[:cut] + "#" + s[cut:]))
